@@ -4,6 +4,7 @@ CONSTANTS
  Pats = {"A"}
  OptOuts = {"absent"}
  Orders = {0}
+ Rels = {"none"}
  Dump = FALSE
 INIT TInit
 NEXT TNext
